@@ -239,8 +239,37 @@ def c12_contradictory_strict_pair(v):
         return r.get('merged_to_not_equal') is True
     if r.get('mirrored_pair') == 'contradictory_complement':
         if r.get('merged_to_not_equal') is False and all(n == (eq_in or 0) for n in eq_out): return True
+        # the same text may also hold a pinch (E <= c with -E <= -c), which legitimately becomes ONE equality: then exactly one more equality comes out
+        if r.get('merged_to_not_equal') is False and all(n == (eq_in or 0) + 1 for n in eq_out) and _has_pinch_pair(r.get('text') or ''): return True
         # a text may hold a strict pair as well (A < c with A > c, spelled identically, next to the complement pair): then the strict signature shows
         return r.get('merged_to_not_equal') is True and _has_identical_strict_pair(r.get('text') or '')
+    return False
+
+
+def _linear_line(line):
+    import re
+    for cmp in (' <= ', ' >= '):
+        if cmp in line:
+            l, r_ = line.split(cmp, 1)
+            try: c = float(r_)
+            except ValueError: return None
+            terms = {}
+            for t in l.split(' + '):
+                m = re.fullmatch(r'\s*(-?[0-9.eE+-]+)\*([A-Za-z_][A-Za-z_0-9]*)\s*', t)
+                if not m: return None
+                terms[m.group(2)] = terms.get(m.group(2), 0.0) + float(m.group(1))
+            sgn = 1.0 if cmp.strip() == '<=' else -1.0          # normalise to  E <= c
+            return ({k: sgn * v for k, v in terms.items()}, sgn * c)
+    return None
+
+
+def _has_pinch_pair(text):
+    rows = [x for x in map(_linear_line, text.splitlines()) if x]
+    for i in range(len(rows)):
+        for j in range(i + 1, len(rows)):
+            (a, c), (b, d) = rows[i], rows[j]
+            if set(a) == set(b) and all(abs(a[k] + b[k]) <= 1e-12 * max(1.0, abs(a[k])) for k in a) and abs(c + d) <= 1e-12 * max(1.0, abs(c)) and any(a.values()):
+                return True
     return False
 
 
